@@ -207,7 +207,10 @@ class Runner(object):
       interior = quad + tsum
       corner = lin + tsum
       catonly = tsum
-      plateau = jnp.floor(3.0 * interior) / 3.0
+      # plateau: the score of the candidate snapped to a grid of step 1/4 (many exact ties; the snapping is
+      # exact arithmetic on the inputs, so re-evaluation cannot fall on the other side of a step)
+      crq = jnp.floor(cr * 4.0) / 4.0
+      plateau = (-jnp.sum((crq - params['center']) ** 2, axis=-1) if nc else zero) + jnp.floor(tsum * 2.0) / 2.0
       if nc:
         lo_reg, hi_reg = cr[..., 0] < 0.2, cr[..., 0] > 0.75
       else:
@@ -345,6 +348,11 @@ def model_request(runner, out, pf, seeded):
     if kf not in seen:
       seen.add(kf)
       table.append(e)
+  # the model's score is a function of the features: the same features scored twice must carry the same reward
+  by_feat = {}
+  for e in [x for b in batches for x in b] + prior_entries:
+    by_feat.setdefault((tuple(e['c']), tuple(e['k'])), set()).add(e['r'])
+  out['score_bitwise_reproducible'] = all(len(v) == 1 for v in by_feat.values())
   if cfg.strategy == 'eagle' and len(out['proj']) == len(out['batches']):
     raw = [[feat_json(p[2][i, 0], p[3][i, 0]) for i in range(p[2].shape[0])] for p in out['proj']]
   else:
@@ -521,7 +529,8 @@ def run_config(c, ci, cfg, n_seeds, families, state, use_fori=True):
       c.tie_break('optimize vs foldl updateBest (model-internal)', case, None, m['res'])
     mtrace = [[entry_tuple(e) for e in b] for b in m['trace']]
     rtrace = [[entry_tuple(e) for e in b] for b in batches]
-    if mtrace != rtrace:
+    repro = out['score_bitwise_reproducible']
+    if (mtrace != rtrace) if repro else ([[e[:2] for e in b] for b in mtrace] != [[e[:2] for e in b] for b in rtrace]):
       c.tie_break('scored batches (padding mask of suggestions)', case,
                   {'n': len(rtrace), 'first': rtrace[0][:2] if rtrace else None}, {'n': len(mtrace), 'first': mtrace[0][:2] if mtrace else None})
     if len(out['batches']) != runner.n_iter or any(b[2].shape[0] != cfgc.batch for b in out['batches']):
@@ -537,10 +546,15 @@ def run_config(c, ci, cfg, n_seeds, families, state, use_fori=True):
         c.tie_break('prior features as scored (padding mask of priors)', case, [entry_tuple(e)[:2] for e in prior_entries][:2], [e[:2] for e in msc][:2])
     pool = [e for b in mtrace for e in b] + (msc if c.flags.get('priorsEnterBest') else []) + [placeholder] * cfgc.count
     exact = (real == mres)
-    state['exact'] += int(exact)
-    state['compared'] += 1
-    if not exact and not same_up_to_ties(real, mres, pool):
-      c.tie_break('best results (top-count merge)', case, real[:4], mres[:4])
+    if not out['score_bitwise_reproducible']:
+      # the same point scored in two batches of different shape differs in the last bit: the recorded
+      # table is not a function; the result comparison would compare rounding, not the merge
+      state['not_reproducible'] = state.get('not_reproducible', 0) + 1
+    else:
+      state['exact'] += int(exact)
+      state['compared'] += 1
+      if not exact and not same_up_to_ties(real, mres, pool):
+        c.tie_break('best results (top-count merge)', case, real[:4], mres[:4])
     # ---------------- property stage on the real result
     all_eval = [e for b in rtrace for e in b]
     n_above = sum(1 for e in all_eval if e[2] > ph)
@@ -596,7 +610,7 @@ def run_config(c, ci, cfg, n_seeds, families, state, use_fori=True):
     if n_above >= cfgc.count and any(e[2] <= ph for e in real):
       c.prop_fail('placeholder-despite-enough-evaluations', 'at least count evaluations rank above -inf but an entry of reward <= -inf was returned', case)
     # every returned pair is an evaluated pair (or a seed-pool entry)
-    pool_set = set(pool) | set(msc)
+    pool_set = set(pool) | set(msc) | set(all_eval) | set(entry_tuple(e) for e in prior_entries)
     stray = [e for e in real if e not in pool_set]
     if stray:
       c.prop_fail('returned-pair-never-evaluated', 'a returned (features, reward) pair was never produced by the score function', dict(case, pair=stray[0]))
@@ -715,6 +729,7 @@ def run(c):
     lbfgsb_stage(c)
   c.flags['randomStrategyPadding'] = state['random_pad']
   c.coverage_extra['results_equal_to_model_in_exact_order'] = '%d of %d' % (state['exact'], state['compared'])
+  c.coverage_extra['runs_whose_recorded_scores_were_not_bitwise_reproducible (result tie skipped)'] = state.get('not_reproducible', 0)
   c.coverage_extra['configurations'] = [cfg.desc() for cfg in cfgs]
 
   if os.environ.get('VERIF_DEBUG'):
